@@ -319,18 +319,37 @@ class Gridder(GeospatialGrid):
             integrated_variables_second_parts,
         )
 
+    def _dateline_crossing_latitude(
+        self, lats, lons, dateline_crossing_idx, dateline_crossing_sign
+    ):
+        """Latitude at which the straight (lat, lon) line of the crossing
+        segment meets the dateline."""
+        lon_start = lons[dateline_crossing_idx]
+        lon_edge = np.pi if dateline_crossing_sign == -1 else -np.pi
+        # longitude of the segment's end point, unwrapped across the dateline
+        lon_end = lons[dateline_crossing_idx + 1] - dateline_crossing_sign * 2 * np.pi
+        delta_lon = lon_end - lon_start
+        fraction = (lon_edge - lon_start) / delta_lon if delta_lon != 0 else 0.0
+        return lats[dateline_crossing_idx] + fraction * (
+            lats[dateline_crossing_idx + 1] - lats[dateline_crossing_idx]
+        )
+
     def _calculate_segment_lengths(
         self, lats, lons, dateline_crossing_idx, dateline_crossing_sign
     ):
+        crossing_latitude = self._dateline_crossing_latitude(
+            lats, lons, dateline_crossing_idx, dateline_crossing_sign
+        )
+
         first_segment_length = great_circle_distance(
             lats[dateline_crossing_idx],
             lons[dateline_crossing_idx],
-            lats[dateline_crossing_idx],
+            crossing_latitude,
             np.pi if dateline_crossing_sign == -1 else -np.pi,
         )
 
         second_segment_length = great_circle_distance(
-            lats[dateline_crossing_idx],
+            crossing_latitude,
             -np.pi if dateline_crossing_sign == -1 else np.pi,
             lats[dateline_crossing_idx + 1],
             lons[dateline_crossing_idx + 1],
@@ -361,7 +380,13 @@ class Gridder(GeospatialGrid):
         lats_first_part = np.concatenate(
             (
                 lats[: dateline_crossing_idx + 1],
-                np.array([lats[dateline_crossing_idx]]),
+                np.array(
+                    [
+                        self._dateline_crossing_latitude(
+                            lats, lons, dateline_crossing_idx, dateline_crossing_sign
+                        )
+                    ]
+                ),
             )
         )
         altitudes_first_part = (
@@ -442,7 +467,13 @@ class Gridder(GeospatialGrid):
 
         lats_second_part = np.concatenate(
             (
-                np.array([lats[dateline_crossing_idx]]),
+                np.array(
+                    [
+                        self._dateline_crossing_latitude(
+                            lats, lons, dateline_crossing_idx, dateline_crossing_sign
+                        )
+                    ]
+                ),
                 lats[dateline_crossing_idx + 1 :],
             )
         )
@@ -1104,15 +1135,19 @@ class Gridder(GeospatialGrid):
             dateline_crossing_idx = np.where(dateline_crossing != 0)[0][0]
             dateline_crossing_sign = dateline_crossing[dateline_crossing_idx]
 
+            crossing_latitude = self._dateline_crossing_latitude(
+                lats, lons, dateline_crossing_idx, dateline_crossing_sign
+            )
+
             first_segment_length = great_circle_distance(
                 lats[dateline_crossing_idx],
                 lons[dateline_crossing_idx],
-                lats[dateline_crossing_idx],
+                crossing_latitude,
                 np.pi if dateline_crossing_sign == -1 else -np.pi,
             )
 
             second_segment_length = great_circle_distance(
-                lats[dateline_crossing_idx],
+                crossing_latitude,
                 -np.pi if dateline_crossing_sign == -1 else np.pi,
                 lats[dateline_crossing_idx + 1],
                 lons[dateline_crossing_idx + 1],
@@ -1129,7 +1164,7 @@ class Gridder(GeospatialGrid):
             lats_first_part = np.concatenate(
                 (
                     lats[: dateline_crossing_idx + 1],
-                    np.array([lats[dateline_crossing_idx]]),
+                    np.array([crossing_latitude]),
                 )
             )
             altitudes_first_part = (
@@ -1188,7 +1223,7 @@ class Gridder(GeospatialGrid):
 
             lats_second_part = np.concatenate(
                 (
-                    np.array([lats[dateline_crossing_idx]]),
+                    np.array([crossing_latitude]),
                     lats[dateline_crossing_idx + 1 :],
                 )
             )
